@@ -411,6 +411,9 @@ struct World
                     bool setter, std::string& why);
     Json result_json() const;
 
+    // the snapshot handed to create_track / update in the step being judged, per track id (valid for that step only):
+    // the independent auditor compares what is stored with what the caller gave, not only with what the library reads back
+    std::map<int64_t, dj::track_snapshot> last_written;
     std::map<std::string, int> uuid_seen;  // UUID text -> token number (observe())
     // purity monitor state
     uint64_t pm_writes = 0, pm_trunc = 0, pm_del = 0, pm_hash = 0;
